@@ -55,7 +55,11 @@ class Session:
     (str without newline) given the session; `on_reply(i, line, reply_obj)` is
     called with every parsed reply (i = -1 for the initial message)."""
 
-    def __init__(self, kconfig_path, sdkconfig_path, rename=None, version=3, parser=1, policy=None, extra_env=None):
+    def __init__(self, kconfig_path, sdkconfig_path, rename=None, version=3, parser=1, policy=None, extra_env=None, pipes=None):
+        # the standard streams are real text layers over in-memory byte pipes, configured like a deployment's:
+        # (stdin errors, stdout encoding) - ("strict", "utf-8") is what a UTF-8 locale gives; ("surrogateescape", "utf-8") the
+        # C/POSIX locale and PYTHONUTF8=1; other stdout encodings come from PYTHONIOENCODING / legacy locales / code pages
+        self.stdin_errors, self.stdout_encoding = pipes or ("strict", "utf-8")
         self.kconfig_path = kconfig_path
         self.sdkconfig_path = sdkconfig_path
         self.rename = rename
@@ -80,14 +84,21 @@ class Session:
         raises ServerDied / ProtocolError."""
         import kconfserver.core as ks
 
-        out = io.StringIO()
-        err = io.StringIO()
+        out_bytes = io.BytesIO()
+        out = io.TextIOWrapper(out_bytes, encoding=self.stdout_encoding, errors="strict", newline="\n", write_through=True)
+        err_bytes = io.BytesIO()
+        err = io.TextIOWrapper(err_bytes, encoding="utf-8", errors="backslashreplace", newline="\n", write_through=True)
         sess = self
         state = {"pos": 0, "i": -1, "last": None}
 
         def consume():
-            text = out.getvalue()[state["pos"]:]
-            state["pos"] += len(text)
+            out.flush()
+            raw = out_bytes.getvalue()[state["pos"]:]
+            state["pos"] += len(raw)
+            try:
+                text = raw.decode(self.stdout_encoding)
+            except UnicodeDecodeError:
+                raise ProtocolError("not-decodable", f"after line #{state['i']} {state['last']!r} the server wrote {raw[:200]!r}")
             if not text.endswith("\n") or text.count("\n") != 1:
                 raise ProtocolError("not-one-line" if text else "no-reply",
                                     f"after line #{state['i']} {state['last']!r} the server wrote {text[:300]!r}")
@@ -104,22 +115,38 @@ class Session:
             if on_reply is not None:
                 on_reply(state["i"], state["last"], obj)
 
-        class Stdin:
-            def readline(self_inner):
-                consume()
-                state["i"] += 1
-                ln = next_line(sess, state["i"])
-                if ln is None:
-                    state["last"] = None
-                    return ""
-                state["last"] = ln
-                sess.sent.append(ln)
-                return ln + "\n"
+        class ClientRaw(io.RawIOBase):
+            """The client end of the stdin pipe: every read by the server first lets the client consume the reply to the
+            previous line, then delivers exactly one request line (bytes)."""
+
+            pending = b""
+
+            def readable(self_inner):
+                return True
+
+            def readinto(self_inner, b):
+                if not self_inner.pending:
+                    consume()
+                    state["i"] += 1
+                    ln = next_line(sess, state["i"])
+                    if ln is None:
+                        state["last"] = None
+                        return 0
+                    state["last"] = ln
+                    sess.sent.append(ln)
+                    data = ln if isinstance(ln, bytes) else ln.encode("utf-8", "surrogatepass")
+                    self_inner.pending = data + b"\n"
+                n = min(len(b), len(self_inner.pending))
+                b[:n] = self_inner.pending[:n]
+                self_inner.pending = self_inner.pending[n:]
+                return n
+
+        stdin = io.TextIOWrapper(io.BufferedReader(ClientRaw()), encoding="utf-8", errors=self.stdin_errors, newline=None)
 
         real_kl = ks.kconfiglib
         ks.kconfiglib = _KconfiglibProxy(real_kl, self.kconfigs)
         old = sys.stdin, sys.stdout, sys.stderr
-        sys.stdin, sys.stdout, sys.stderr = Stdin(), out, err
+        sys.stdin, sys.stdout, sys.stderr = stdin, out, err
         cwd = os.getcwd()
         os.chdir(os.path.dirname(os.path.abspath(self.kconfig_path)))  # relative paths stay inside the sandbox
         try:
@@ -140,8 +167,8 @@ class Session:
             os.chdir(cwd)
             sys.stdin, sys.stdout, sys.stderr = old
             ks.kconfiglib = real_kl
-            self.stderr_text = err.getvalue()
-            self.stdout_text = out.getvalue()
+            self.stderr_text = err_bytes.getvalue().decode("utf-8", "replace")
+            self.stdout_text = out_bytes.getvalue().decode(self.stdout_encoding, "replace")
             simproc.scrub_env()
 
 
